@@ -1174,6 +1174,216 @@ def probe_zero(writer):
     return out
 
 
+# ------------------------------------------------------------------------------------------ file skeleton
+def _one_of_each():
+    n = neuroml
+    s = Sent(40)
+    net = n.Network(id="NETID", notes="nn")
+    pop, _ = make_container("population", "K")
+    pop.instances.append(make_row("population", "Instance", s))
+    net.populations.append(pop)
+    for kind, lst, v in (("projection", "projections", "Connection"), ("electrical", "electrical_projections", "ElectricalConnection"),
+                         ("continuous", "continuous_projections", "ContinuousConnection"), ("inputlist", "input_lists", "Input")):
+        c, _ = make_container(kind, "K" + kind[:2])
+        getattr(c, LISTS[v]).append(make_row(kind, v, s))
+        getattr(net, lst).append(c)
+    return net
+
+
+def probe_skeleton():
+    import tables
+    from neuroml.hdf5.NeuroMLHdf5Parser import NeuroMLHdf5Parser
+    from neuroml.writers import NeuroMLHdf5Writer
+    n = neuroml
+    sk = {}
+    # --- writer: a document with TWO networks on the recording mock (which, unlike PyTables, accepts equal names)
+    doc = n.NeuroMLDocument(id="D")
+    doc.iaf_cells.append(n.IafCell(id="cellX", leak_reversal="-50mV", thresh="-55mV", reset="-70mV", C="0.2nF", leak_conductance="0.01uS"))
+    doc.networks.append(_one_of_each())
+    second = n.Network(id="SECOND")
+    second.populations.append(n.Population(id="q", component="cellX", size=1))
+    doc.networks.append(second)
+    mf = MFile()
+    orig = tables.open_file
+    tables.open_file = lambda *a, **k: mf
+    try:
+        with contextlib.redirect_stdout(io.StringIO()):
+            NeuroMLHdf5Writer.write(doc, "/nonexistent/never-created.h5")
+    finally:
+        tables.open_file = orig
+    if len(mf.root.children) != 1:
+        raise Abort("writer created %d root groups" % len(mf.root.children))
+    root = mf.root.children[0]
+    nets = [c for c in root.children if not isinstance(c, MArray)]
+    sk["root"] = root._v_name
+    sk["networks_written"] = len(nets)
+    sk["network"] = nets[0]._v_name if nets else ""
+    xml = dict(root.attrs).get("neuroml_top_level")
+    sk["embeds_xml"] = bool(isinstance(xml, str) and "cellX" in xml and "<network" not in xml and "NETID" not in xml)
+    sk["restores_networks"] = [x.id for x in doc.networks] == ["NETID", "SECOND"]
+    # --- order and names of the construct groups
+    kinds_by_id = {"IDK": "population", "IDKpr": "projection", "IDKel": "electrical", "IDKco": "continuous", "IDKin": "inputlist"}
+    order, wprefix, named = [], [], True
+    for c in (nets[0].children if nets else []):
+        gid = dict(c.attrs).get("id")
+        if gid not in kinds_by_id or not c._v_name.endswith(gid):
+            raise Abort("unexpected group %s under the network group" % c._v_name)
+        order.append(kinds_by_id[gid])
+        wprefix.append([kinds_by_id[gid], c._v_name[: -len(gid)]])
+        arrs = [a for a in c.children if isinstance(a, MArray)]
+        named = named and len(arrs) == 1 and arrs[0]._v_name == gid
+    sk["order"], sk["wprefix"], sk["array_named_by_id"] = order, wprefix, named
+
+    # --- reader dispatch
+    def calls_for(name, attrs, children=(), wrap=True):
+        rec = Recorder()
+        p = NeuroMLHdf5Parser(rec)
+        p.nml_doc_extra_elements = None
+        g = RGroup(name, attrs, list(children))
+        top = RGroup(sk["network"], {"id": "NID"}, [g]) if wrap else g
+        with contextlib.redirect_stdout(io.StringIO()):
+            p.parse_group(top)
+        return [c[0] for c in rec.calls]
+    generic = {"id": "GID", "component": "GCOMP", "size": numpy.int64(2), "population": "GPOP", "presynapticPopulation": "GPRE",
+               "postsynapticPopulation": "GPOST", "synapse": "GSYN", "type": "projection"}
+    rprefix = []
+    for pre in sorted(set(x[1] for x in wprefix) | {"input_list_"}):
+        cs_ = calls_for(pre + "GID", generic)
+        cls = [c for c, h in (("population", "handle_population"), ("projection", "finalise_projection"), ("inputlist", "handle_input_list")) if h in cs_]
+        if len(cls) > 1:
+            raise Abort("group %sGID is dispatched to several classes %s" % (pre, cls))
+        if cls:
+            rprefix.append([pre, cls[0]])
+    sk["rprefix"] = rprefix
+    sk["prefix_only"] = all(not [c for c in calls_for("x_" + pre + "GID", generic) if c != "handle_network"] for pre, _ in rprefix)
+    il = RGroup("inputList_A", {"id": "A", "component": "GCOMP", "population": "B", "size": numpy.int64(0)})
+    pb = RGroup("population_B", {"id": "B", "component": "GCOMP", "size": numpy.int64(2)})
+    rec = Recorder()
+    p = NeuroMLHdf5Parser(rec)
+    p.nml_doc_extra_elements = None
+    with contextlib.redirect_stdout(io.StringIO()):
+        p.parse_group(RGroup(sk["root"], {"id": "DID", "notes": "x"}, [RGroup(sk["network"], {"id": "NID"}, [il, pb])]))
+    names = [c[0] for c in rec.calls]
+    sk["pops_first"] = "handle_population" in names and "handle_input_list" in names and \
+        names.index("handle_population") < names.index("handle_input_list")
+    sk["root_dispatch"] = names[:2] == ["handle_document_start", "handle_network"]
+    # --- chemical projection without connections
+    runs = []
+    for tag in ("A", "B"):
+        c, cf = make_container("projection", tag)
+        f = MFile()
+        top = MNode("network")
+        c.exportHdf5(f, top)
+        runs.append((top.children[0], cf))
+    (gA, cA), (gB, cB) = runs
+    sk["empty_proj_array"] = bool([a for a in gA.children if isinstance(a, MArray)])
+    ew = []
+    for (k, va), (k2, vb) in zip(gA.attrs, gB.attrs):
+        fld = [x for x in cA if cA[x] == va and cB[x] == vb]
+        if k != k2:
+            raise Abort("empty projection attribute names depend on values")
+        if len(fld) == 1:
+            ew.append([k, ["GField", fld[0]]])
+        elif isinstance(va, str) and va == vb:
+            ew.append([k, ["GConst", va]])
+        else:
+            raise Abort("empty projection attribute %s" % k)
+    sk["empty_proj_w"] = ew
+    nb = fresh_builder()
+    p = NeuroMLHdf5Parser(nb)
+    p.nml_doc_extra_elements = None
+    attrs = dict((k, "E" + k) for k, _ in ew)
+    attrs["type"] = dict(gA.attrs).get("type", "projection")
+    with contextlib.redirect_stdout(io.StringIO()):
+        p.parse_group(RGroup(gA._v_name.replace("IDA", "Eid"), attrs))
+    pr = [x for x in nb.network.projections]
+    back = {}
+    if len(pr) == 1:
+        obj = {"id": pr[0].id, "pre": pr[0].presynaptic_population, "post": pr[0].postsynaptic_population, "synapse": pr[0].synapse}
+        for k, src in ew:
+            if src[0] == "GField":
+                back[src[1]] = obj.get(src[1]) == "E" + k
+    sk["empty_proj_read"] = sorted(back.items())
+    return sk
+
+
+# ------------------------------------------------------------------------------------------ optimized containers
+def probe_optimized():
+    from neuroml.hdf5 import NetworkContainer as NC
+    out = []
+    specs = [("population", "Instance", NC.InstanceList, ["x", "y", "z"], None),
+             ("projection", "Connection", NC.ConnectionList,
+              ["pre_cell_id", "post_cell_id", "pre_segment_id", "post_segment_id", "pre_fraction_along", "post_fraction_along"], None),
+             ("inputlist", "Input", NC.InputsList, ["id", "target_cell_id", "segment_id", "fraction_along"], "id")]
+
+    def run(kind, cls, names_at, ncols, idname, zero=None):
+        arr = numpy.array([[100.0 * (i + 1) + j + 0.25 for j in range(ncols)] for i in range(3)], numpy.float32)
+        if idname is not None and idname in names_at:
+            arr[:, names_at[idname]] = [0, 1, 2]          # the containers assert id == row index
+        if zero is not None and zero in names_at:
+            arr[:, names_at[zero]] = 0.0
+        lst = cls(array=arr, indices=dict(names_at))
+        if kind == "projection":
+            lst.presynaptic_population, lst.postsynaptic_population = "PRE", "POST"
+        if kind == "inputlist":
+            lst.target_population = "POP"
+        rows = [semrow(kind, lst[i]) for i in range(3)]
+        return rows, [[float(v) for v in r] for r in arr]
+
+    for kind, variant, cls, names, idname in specs:
+        n = len(names)
+        shifted = dict((nm, j + 1) for j, nm in enumerate(names))
+        rows, arr = run(kind, cls, shifted, n + 2, idname)
+        entries, dropped = [], []
+        for f in ROWFIELDS[kind]:
+            vals = [r[f] for r in rows]
+            if f == idname or (kind == "inputlist" and f == "id"):
+                dsc = ("col", shifted[idname], True) if all(int(v) == i for i, v in enumerate(vals)) else ("other",)
+            else:
+                dsc = describe_arg([int(v) if float(v) == int(v) and f in ("id", "pre_cell", "post_cell", "pre_seg", "post_seg", "cell", "seg") else v
+                                    for v in vals], arr)
+            if dsc[0] != "col":
+                d2 = ["ODRowIndex"] if dsc[0] == "rowindex" else ["ODConst", dsc[1]] if dsc[0] == "const" else None
+                if d2 is None:
+                    dropped.append(f)
+                else:
+                    entries.append({"field": f, "name": "", "at0": False, "int": False, "dflt": d2, "zero": True})
+                continue
+            nm = names[dsc[1] - 1]
+            isint = bool(dsc[2])
+            # column at 0
+            order0 = [nm] + [x for x in names if x != nm]
+            try:
+                rows0, arr0 = run(kind, cls, dict((x, j) for j, x in enumerate(order0)), n, idname)
+                v0 = [r[f] for r in rows0]
+                at0 = all((int(v) == int(arr0[i][0])) if isint else (float(v) == arr0[i][0]) for i, v in enumerate(v0)) \
+                    if nm != idname else all(int(v) == i for i, v in enumerate(v0))
+            except Exception:  # noqa: BLE001
+                at0 = False
+            # name absent
+            try:
+                rest = dict((x, j + 1) for j, x in enumerate([x for x in names if x != nm]))
+                rowsN, arrN = run(kind, cls, rest, n + 2, idname)
+                vN = [r[f] for r in rowsN]
+                dN = describe_arg([int(v) if isint else v for v in vN], arrN)
+                dflt = ["ODRowIndex"] if dN[0] == "rowindex" else ["ODConst", dN[1]] if dN[0] == "const" else \
+                    ["ODColumn", dN[1]] if dN[0] == "col" else ["ODFail"]
+            except Exception:  # noqa: BLE001
+                dflt = ["ODFail"]
+            # a 0 cell
+            try:
+                if nm == idname:
+                    zero = True
+                else:
+                    rowsZ, _ = run(kind, cls, shifted, n + 2, idname, zero=nm)
+                    zero = all(float(r[f]) == 0.0 for r in rowsZ)
+            except Exception:  # noqa: BLE001
+                zero = False
+            entries.append({"field": f, "name": nm, "at0": bool(at0), "int": isint, "dflt": dflt, "zero": bool(zero)})
+        out.append({"kind": kind, "variant": variant, "entries": entries, "dropped": dropped})
+    return out
+
+
 # ------------------------------------------------------------------------------------------ Coq rendering
 def cs(s):
     assert all(ord(c) < 128 for c in s)
@@ -1260,11 +1470,32 @@ def render(t):
              cl(["(%s, %s, %s, %s)" % (cs(k), cs(a), cs(v), cb(ok)) for k, a, v, ok in t["precision"]]))
     L.append("Definition merge_probe : list (string * bool) := %s.\n" % cl(["(%s, %s)" % (cs(k), cb(v)) for k, v in t["merge"]]))
     L.append("Definition string_probe : list (string * bool) := %s.\n" % cl(["(%s, %s)" % (cs(k), cb(v)) for k, v in t["strings"]]))
+    k = t["skeleton"]
+    L.append("Definition skel : skeleton := {| sk_root := %s; sk_network := %s;\n  sk_wprefix := %s;\n  sk_order := %s; sk_networks_written := %d;\n"
+             "  sk_embeds_xml := %s; sk_restores_networks := %s; sk_array_named_by_id := %s;\n  sk_rprefix := %s;\n"
+             "  sk_prefix_only := %s; sk_pops_first := %s; sk_root_dispatch := %s;\n  sk_empty_proj_w := %s;\n"
+             "  sk_empty_proj_array := %s; sk_empty_proj_read := %s |}.\n" % (
+                 cs(k["root"]), cs(k["network"]), cl(["(%s, %s)" % (cs(a), cs(b)) for a, b in k["wprefix"]]),
+                 cl([cs(x) for x in k["order"]]), k["networks_written"], cb(k["embeds_xml"]), cb(k["restores_networks"]),
+                 cb(k["array_named_by_id"]), cl(["(%s, %s)" % (cs(a), cs(b)) for a, b in k["rprefix"]]),
+                 cb(k["prefix_only"]), cb(k["pops_first"]), cb(k["root_dispatch"]),
+                 cl(["(%s, %s)" % (cs(a), gsrc(b)) for a, b in k["empty_proj_w"]]), cb(k["empty_proj_array"]),
+                 cl(["(%s, %s)" % (cs(a), cb(b)) for a, b in k["empty_proj_read"]])))
+
+    def od(d):
+        return "ODConst %s" % d[1] if d[0] == "ODConst" else "ODColumn %d" % d[1] if d[0] == "ODColumn" else d[0]
+    ots = []
+    for o in t["optimized"]:
+        es = cl(["\n     {| oe_field := %s; oe_name := %s; oe_at0 := %s; oe_int := %s; oe_dflt := %s; oe_zero_kept := %s |}" % (
+            cs(e["field"]), cs(e["name"]), cb(e["at0"]), cb(e["int"]), od(e["dflt"]), cb(e["zero"])) for e in o["entries"]])
+        ots.append("{| ot_kind := %s; ot_variant := %s; ot_entries := %s;\n     ot_dropped := %s |}" % (
+            cs(o["kind"]), cs(o["variant"]), es, cl([cs(x) for x in o["dropped"]])))
+    L.append("Definition optimized_tables : list otable :=\n  " + cl(["\n   " + x for x in ots]) + ".\n")
     L.append("\nDefinition gen : h5gen := {| g_writer := writer_tables; g_reader := reader_tables; g_builder := builder_table;\n"
              "  g_sized_pop_w := sized_population_gattrs; g_sized_pop_r := sized_population_gattrs_r;\n"
              "  g_doc_w := document_gattrs_w; g_doc_r := document_gattrs_r; g_net_w := network_gattrs_w; g_net_r := network_gattrs_r;\n"
              "  g_prop_prefix := property_prefix_ok; g_none_notes := none_notes_read_as; g_absent_temp := absent_temperature_read_as;\n"
-             "  g_builder_strings := builder_strings; g_refusals := refusals; g_delay_units := delay_units;\n  g_select := select_probes; g_zero := zero_cells; g_precision := builder_precision; g_merge := merge_probe; g_strings := string_probe |}.")
+             "  g_builder_strings := builder_strings; g_refusals := refusals; g_delay_units := delay_units;\n  g_select := select_probes; g_zero := zero_cells; g_precision := builder_precision; g_merge := merge_probe; g_strings := string_probe;\n  g_skel := skel; g_opt := optimized_tables |}.")
     return "\n".join(L) + "\n"
 
 
@@ -1289,6 +1520,8 @@ def main():
     t["precision"] = probe_builder_precision()
     t["merge"] = probe_merge()
     t["strings"] = probe_strings()
+    t["skeleton"] = probe_skeleton()
+    t["optimized"] = probe_optimized()
     print(json.dumps({"json": t, "coq": render(t)}))
 
 
